@@ -28,16 +28,17 @@ BUILTIN_ATTRS = {
 
 class V:
     """abstract value"""
-    __slots__ = ('kinds', 'elem', 'keys', 'nonempty')
+    __slots__ = ('kinds', 'elem', 'keys', 'nonempty', 'tok')
 
-    def __init__(self, kinds=(), elem=None, keys=None, nonempty=False):
+    def __init__(self, kinds=(), elem=None, keys=None, nonempty=False, tok=None):
         self.kinds = frozenset(kinds)
         self.elem = elem            # V of elements (list/tuple/dict values) or None
         self.keys = keys            # frozenset of closed literal keys for dict, or None = open
         self.nonempty = nonempty
+        self.tok = tok              # the value is the unchanged text of this token type (provenance, survives assignment and helper parameters)
 
     def __eq__(self, o):
-        return isinstance(o, V) and self.kinds == o.kinds and self.elem == o.elem and self.keys == o.keys and self.nonempty == o.nonempty
+        return isinstance(o, V) and self.kinds == o.kinds and self.elem == o.elem and self.keys == o.keys and self.nonempty == o.nonempty and self.tok == o.tok
 
     def __hash__(self):
         return hash((self.kinds, self.keys))
@@ -70,7 +71,7 @@ def join(a, b, depth=0):
         keys = b.keys
     elif 'dict' not in b.kinds and a.keys is not None:
         keys = a.keys
-    return V(a.kinds | b.kinds, elem, keys, a.nonempty and b.nonempty)
+    return V(a.kinds | b.kinds, elem, keys, a.nonempty and b.nonempty, a.tok if a.tok == b.tok else None)
 
 
 def vk(*kinds):
@@ -113,7 +114,7 @@ class ActionKinds:
     # ---- production-specialised constant folding ----------------------------------------------------------
     def sym_value(self, sym):
         if sym in self.g.tokens:
-            return V(['str'], nonempty=True)        # sly never produces an empty token
+            return V(['str'], nonempty=True, tok=sym)        # sly never produces an empty token
         return self.nt.get(sym) or V()
 
     def fold(self, test, prod, pvar, st=None):
@@ -454,6 +455,9 @@ class ActionKinds:
                     tok = prod.rhs[src.slice.value]
                 elif isinstance(src, ast.Attribute) and isinstance(src.value, ast.Name) and src.value.id == pvar and src.attr in prod.names:
                     tok = prod.rhs[prod.names[src.attr]]
+                if tok is None and a0.tok is not None:
+                    tok = a0.tok                # the token text arrived through a local / a helper's parameter
+                r = None
                 if tok in self.g.tokens:
                     import re
                     r = self.g.lexer.rule(tok)
